@@ -1000,3 +1000,27 @@ Proof.
   apply (Permutation_NoDup (l := map fst raw)); [|assumption].
   apply Permutation_map, Permutation_sym, sort_ring_perm.
 Qed.
+
+(* ---- a token owned by two nodes: the statements that need globally distinct tokens fail --- *)
+Definition dup_dcf (n : N) : option N := match n with 2%N => Some 2%N | _ => Some 1%N end.
+Definition dup_ring : ring N := [(10, 1%N); (10, 2%N); (20, 3%N)].
+
+Lemma ordered_dup_refuted :
+  exists dcf rackf g pre t s dc,
+    sorted_weak g /\ (forall d, sorted_strict (dcpos dcf g d)) /\ nts_keys_ok s /\
+    ~ Permutation (fst (rs_ordered dcf rackf g pre t (replicas_for dcf rackf g pre t s dc)))
+                  (rs_iter dcf rackf g pre t (replicas_for dcf rackf g pre t s dc)).
+Proof.
+  exists dup_dcf, (fun _ => None), dup_ring, [], 10, (NTS [(1%N, 1%nat)]), None.
+  split; [cbn; lia|]. split; [|split].
+  - intros d. unfold dcpos, dup_ring. cbn [filter snd]. unfold in_dc, dup_dcf.
+    destruct (N.eqb 1 d) eqn:E1; destruct (N.eqb 2 d) eqn:E2; cbn; lia.
+  - cbn. repeat constructor. intros [].
+  - intros P. apply Permutation_length in P. vm_compute in P. discriminate.
+Qed.
+
+Lemma precomputed_dup_refuted :
+  exists (g : ring N) pre t rf, sorted_weak g /\ get_simple g pre t rf <> simple_replicas g t rf.
+Proof.
+  exists dup_ring, [], 5, 1%nat. split; [cbn; lia|]. vm_compute. intros H. discriminate H.
+Qed.
